@@ -1,17 +1,17 @@
 """Registry: which units serve which property, the level each property is claimed at, and the manifest texts."""
 REGISTRY = {
     'C01': ['base_core', 'handles', 'connect', 'result'],
-    'C06': ['base_core', 'handles', 'connect', 'shared_contract'],
-    'C02': ['core', 'result', 'entry'],
+    'C06': ['base_core', 'handles', 'connect', 'shared_contract', 'core'],
+    'C02': ['core', 'result', 'entry', 'attach'],
     'C03': ['base_core', 'handles', 'core', 'event', 'strand', 'when', 'intrusive_ptr', 'connect', 'ownership', 'entry', 'shared_contract'],
     'C04': ['base_core', 'strand', 'event', 'coro_mutex', 'spinlock'],
-    'C05': ['thread_pool', 'strand', 'core', 'handles', 'ownership', 'entry'],
+    'C05': ['thread_pool', 'strand', 'core', 'handles', 'ownership', 'entry', 'attach'],
     'C07': ['strand'],
     'C08': ['thread_pool'],
     'C09': ['when'],
     'C10': ['any', 'when'],
     'C11': ['wait', 'event', 'base_core'],
-    'C12': ['core', 'handles', 'entry'],
+    'C12': ['core', 'handles', 'entry', 'attach'],
     'C13': ['coro', 'base_core', 'event'],
     'C14': ['coro_mutex', 'guards'],
     'C15': ['shared_mutex', 'coro_mutex', 'guards', 'spinlock'],
@@ -70,7 +70,8 @@ CLAIMS = {
                 'Task: registration on the inner state, Task head started), CallImpl with its function-try-block (throw => Exception with the '
                 'thrown payload), Done (store, release, destroy, publish, in that order), Impl second visit (lemma unwrap: the step completes '
                 'with exactly the inner Result), Call, Drop (= Call on Error(Stop)), MoveToCaller, detail::SetCallback, MakeCore. '
-                'Result<V, E> (unit result): state <-> held alternative, constructors, accessors, Ok()/Get - what the (kind, state, tag) abstraction of the other jobs stands on.',
+                'Result<V, E> (unit result): state <-> held alternative, constructors, accessors, Ok()/Get - what the (kind, state, tag) abstraction of the other jobs stands on. '
+                'Unit attach: the 17 public attach wrappers (Then / ThenInline / Detach / DetachInline / Subscribe / SubscribeInline of Future, FutureOn, SharedFuture, SharedFutureOn, Task): exactly the CoreType flags and executor argument of their attachment mode (Call = a job of an executor, Detach, Lazy; &e / inherited / inline).',
         'note': 'Payloads are opaque (kind, state, tag) triples; exceptions exist only at the functor call; the mapping from C++ callables to '
                 'signature classes (is_invocable_v, Return<>, MakeCore type computation) is configuration input, not proved; step order is the '
                 'Loop / Here token discipline of C01. quick = 4 return kinds, thorough = the full product.',
